@@ -17,7 +17,7 @@ for k,(a,b) in enumerate(zip(i,m)):
     d1 = a!=left
     d2 = [kk for kk,v in fs.items() if kk in fa and fa[kk]!=v]
     d3 = [kk for kk,v in fs.items() if kk in fl and fl[kk]!=v]
-    if d1 or d2 or d3 or 'conv=FAIL' in a:
+    if d1 or d2 or d3 or '=FAIL' in a:
         bad+=1
         if bad<=int(sys.argv[4]) if len(sys.argv)>4 else bad<=2:
             print('--- case starting line',last_t)
